@@ -221,7 +221,126 @@ def run_c06(ctx):
                         "calibration: <= 2 top-level alternatives (3+ do not parse in the pinned macro)"]
 
 
-def dynmock_stage(ctx, cases):
+def run_c19(ctx):
+    import patgen
+    # (a) call rendering for every parameter kind, three error kinds per shape
+    b = engine_b.BUDGET[ctx.tier]
+    shapes = engine_b.select_shapes(ctx, sg.core_shapes_forward(), b["core"] // 2, b["rand"] // 2,
+                                    mode_ok=lambda s: s.asyncness == "sync")
+    exps, events, errors, st, checked, findings = _run_generic(
+        ctx, "message", shapes, sg.render_message, sg.check_message, "shapegen:message")
+    for i, why in findings.items():
+        s = shapes[i]
+        sig = "F4:impossible-slot-rendered-as-Impossible" if why.startswith("F4:") else f"shapegen:message:{s.key()}"
+        ctx.violation(sig, {"what": why, "at": f"shape {i}", "case": s.key(),
+                                                      "expected": json.dumps(exps[i])[:600],
+                                                      "observed": json.dumps(events.get(i, []))[:1200]})
+    # (b) pattern naming, file:line and mismatch positions on the matching! programs
+    cases, pexps, pevents, perrors, pst = _run_patterns(ctx, PAT_BUDGET[ctx.tier] // 2)
+    n_msgs = 0
+    n_positions = 0
+    for i, c in enumerate(cases):
+        if i in perrors:
+            continue
+        why = patgen.check_messages(pexps[i], pevents.get(i, []))
+        n_msgs += sum(1 for e in pevents.get(i, []) if e["k"] == "reject_msg")
+        if pexps[i]["per_arg_rejections"] is not None:
+            n_positions += 1
+        if why:
+            ctx.violation(f"patgen:message:{c.key()}", {"what": why, "at": f"pattern {i}",
+                                                        "case": f"matching!({c.matching_src()}) on ({', '.join(c.types)})",
+                                                        "expected": "see what", "observed": why[:800]})
+    ctx.require(n_msgs > 0 and n_positions > 0, "no mismatch message / no single-alternative pattern observed")
+    feats = engine_b.shape_features(shapes)
+    for k in sg.KINDS:
+        ctx.require(feats.get("param_" + k, 0) > 0, f"no message shape with parameter kind {k}")
+    ctx.coverage.update({
+        "evaluations": checked * 3 + n_msgs,
+        "distinct_nontrivial": len({s.key() for s in shapes if s.params}) + len({c.key() for c in cases if c.types}),
+        "rule": "(a) every generated method shape (as C05, sync) is called on a mock without clause, with a rejecting "
+                "unordered pattern and with a rejecting ordered pattern; each panic text must start with "
+                "Trait::method(d1, .., dn), di = rustc's own Debug rendering computed at the call site ('?' for "
+                "non-Debug types). (b) every rejected tuple of every generated matching! pattern (as C06): the "
+                "message must name the pattern with the file:line captured on the same source line, by its source "
+                "text where the doc renderer elides nothing, and - for guard-free single-alternative patterns - "
+                "list exactly the argument positions whose sub-pattern rejects the actual value, each with that value. "
+                "(c) dynmock histories: every mock-induced panic kind must name its method and pattern.",
+        "samples": [exps[i]["shape"] for i in list(exps)[:2]] + [f"matching!({c.matching_src()})" for c in cases[:2]],
+        "messages_checked": checked * 3 + n_msgs, "single_alternative_patterns": n_positions,
+        "shape_features": feats, "programs": len(shapes) + len(cases), **st,
+        "exhaustive": False,
+    })
+    ctx.assumptions += ["built without the pretty-print feature; ANSI escapes are stripped anyway"]
+    dynmock_stage(ctx, 200_000 if ctx.tier == "quick" else 4_000_000, gate=False)
+
+
+RET_BUDGET = {"quick": 360, "thorough": 6000}
+
+
+def run_c17(ctx):
+    import retgen
+    accepted = [retgen.to_tuple(t) for t in json.load(open(os.path.join(common.ROOT, "gen", "accepted", "returns.json")))]
+    rng = random.Random(ctx.seed * 31 + 17)
+    with_ref = [t for t in accepted if retgen.has_ref(t)]
+    owned_only = [t for t in accepted if not retgen.has_ref(t)]
+    n = RET_BUDGET[ctx.tier]
+    cases = []
+    k = 0
+    while len(cases) < n:
+        # reference-carrying types dominate; every accepted one is visited in turn
+        t = with_ref[k % len(with_ref)] if k % 4 != 3 else owned_only[(k // 4) % len(owned_only)]
+        c = retgen.Counter()
+        force = "first" if (k // len(with_ref)) % 3 == 0 else None
+        v = retgen.gen_value(t, rng, c, force=force)
+        mode = retgen.MODES[(k + k // len(with_ref)) % 4]
+        cases.append((t, v, mode))
+        k += 1
+    modules, exps = [], {}
+    for i, (t, v, mode) in enumerate(cases):
+        text, exp = retgen.render(t, v, mode, i)
+        modules.append((i, text))
+        exps[i] = exp
+    events, errors, st = engine_b.build_and_run(ctx, "returns", modules, per_crate=60)
+    checked = 0
+    feats = {}
+    for i, (t, v, mode) in enumerate(cases):
+        key = json.dumps([t, v, mode])
+        if i in errors:
+            ctx.violation(f"retgen:expansion-error:{json.dumps(t)}", {
+                "what": "a return type of the calibrated accepted set no longer compiles", "at": f"case {i}",
+                "case": exps[i]["type"], "expected": "compiles", "observed": "; ".join(errors[i])[:800]})
+            continue
+        why = retgen.check(exps[i], events.get(i, []))
+        checked += 1
+        if why:
+            ctx.violation(f"retgen:{key}", {"what": why, "at": f"case {i}",
+                                            "case": f"fn m(&self) -> {exps[i]['type']} configured {mode} with {exps[i]['value']}",
+                                            "expected": json.dumps(exps[i]), "observed": json.dumps(events.get(i, []))[:800]})
+        for f in [f"mode_{mode}", f"top_{t[0]}", "with_ref" if retgen.has_ref(t) else "owned_only",
+                  "owned_leaf_in_value" if exps[i]["owned_leaves"] else "borrowed_only_value"]:
+            feats[f] = feats.get(f, 0) + 1
+    for f in ["mode_some", "mode_each", "mode_once", "mode_n2", "top_opt", "top_res", "top_vec", "top_poll", "top_tup",
+              "with_ref", "owned_only", "owned_leaf_in_value", "borrowed_only_value"]:
+        ctx.require(feats.get(f, 0) > 0, f"no return case with {f}")
+    ctx.coverage.update({
+        "evaluations": checked,
+        "distinct_nontrivial": len({json.dumps(c) for c in cases}),
+        "rule": "a case = (return type from the calibrated accepted set over Option/Result/Vec/Poll/1-4-tuples x owned "
+                "u32/String, &u32, &str, &[u8], &'static str, depth <= 3; a value: every variant, 0-4 elements, all "
+                "leaves distinct; a configuration path: some_call / each_call / next_call.once() / n_times(2)). The Debug "
+                "rendering of every returned value must equal the generator's rendering of the configured value, borrowed "
+                "leaves must keep their addresses over repeated calls, and a further request is refused exactly when "
+                "the value has an owned leaf and the path is single-use. All cases are non-trivial; distinct by (type, "
+                "value, mode).",
+        "samples": [f"{exps[i]['type']} = {exps[i]['value']} via {exps[i]['mode']}" for i in list(exps)[:4]],
+        "accepted_types": len(accepted), "accepted_types_with_references": len(with_ref),
+        "features": feats, "compile_errors": len(errors), **st, "exhaustive": False,
+    })
+    ctx.assumptions += ["accepted return types were calibrated once on the pinned tree (gen/accepted/returns.json, "
+                        "rejected candidates with rustc's reason in returns_rejected.json)"]
+
+
+def dynmock_stage(ctx, cases, gate=True):
     """Engine A histories (fall-through table with default bodies and real functions), judged by Spec-M;
     discrepancies tagged with this property are reported."""
     from . import engine_a
@@ -229,8 +348,12 @@ def dynmock_stage(ctx, cases):
     stats = engine_a._merge(w["stats"] for w in workers)
     for v in viols:
         ctx.violation(f"dynmock:std:{'+'.join(v['tags'])}:{v['at'].split(' ')[0]}", dict(v))
-    ctx.require(stats.get("out_real", 0) > 0 and stats.get("out_default_body", 0) > 0,
-                "dynmock stage saw no real-function / default-body outcome")
+    if gate:
+        ctx.require(stats.get("out_real", 0) > 0 and stats.get("out_default_body", 0) > 0,
+                    "dynmock stage saw no real-function / default-body outcome")
+    else:
+        for k in ["Explicit", "CannotReturnTwice", "WrongOrder", "InputsNotMatched", "NoOutput", "NoMatcherFn"]:
+            ctx.require(stats.get("mockpanic_" + k, 0) > 0, f"dynmock stage saw no {k} message")
     ctx.coverage["dynmock_stage"] = {"cases": sum(w["cases"] for w in workers),
                                      "distinct_nontrivial": summary["distinct_nontrivial"],
                                      "out_real": stats.get("out_real", 0),
@@ -248,4 +371,8 @@ def run(ctx):
         return dynmock_stage(ctx, 200_000 if ctx.tier == "quick" else 4_000_000)
     if ctx.prop == "C06":
         return run_c06(ctx)
+    if ctx.prop == "C19":
+        return run_c19(ctx)
+    if ctx.prop == "C17":
+        return run_c17(ctx)
     raise common.Inconclusive(f"no shapegen workload for {ctx.prop}")
